@@ -53,6 +53,7 @@ type FuncContract struct {
 	Consumes []string
 	GhostDefs []Clause
 	CallPres  []CallPre
+	NoCalls   []string
 }
 
 // CallPre: an assertion checked immediately before calls whose callee name contains Callee;
@@ -339,6 +340,8 @@ func (cs *Contracts) LoadContractFile(path, pkg string) error {
 				return err
 			}
 			cur.Ensures = append(cur.Ensures, c)
+		case "nocall":
+			cur.NoCalls = append(cur.NoCalls, strings.Fields(rest)...)
 		case "callpre":
 			w2, r2 := splitWord(rest)
 			c, err := mkClause(r2)
